@@ -64,7 +64,8 @@ class If(Function):
 
     @property
     def emitting_channels(self) -> tuple[OutputSignal, ...]:
-        if self.outputs.truth.value is NOT_DATA:
+        if self.failed or self.outputs.truth.value is NOT_DATA:
+            # A failed run decides nothing -- the truth value is the one of an earlier run
             return super().emitting_channels
         elif self.outputs.truth.value:
             return (*super().emitting_channels, self.signals.output.true)
